@@ -28,10 +28,15 @@ IMPORTS = {
     "import_typing": ("import typing", None),
     "from_typing_tc": ("from typing import TYPE_CHECKING", None),
     "import_two": ("import os.path, json", "json.dumps(1)"),
+    # a class named like a class of another module that stubs import (fxh.Outer): `Outer` from M1 at runtime while the stub
+    # brings `Outer` from M2 and another name from M1
+    "from_twinmod_Outer": ("from twinmod import Outer", "Outer.Nested.__name__"),
 }
 ANNOS = [None, None, None, "int", "str", "'Base2'", "float"]
 STMTS = ["CONST = 1  # c", "X, Y = 1, 2", "if len('ab') == 2:\n    FLAG = True\nelse:\n    FLAG = False", "try:\n    import json as _j\nexcept ImportError:\n    _j = None",
-         "LST = [\n    1,\n    2,  # two\n]", "a = 1; b = 2"]
+         "LST = [\n    1,\n    2,  # two\n]", "a = 1; b = 2",
+         # multi-line string literals with whitespace-only lines, trailing blanks and tabs (their VALUE is part of the program)
+         'TEXT = """\n  top\n    \n  bottom  \n\t\n"""', 'TEXT2 = """first\n \n\tsecond"""  # text']
 COMMENTS = ["# a comment", "# another: with punctuation (and parens)", "#!not-a-shebang"]
 
 
@@ -42,7 +47,7 @@ def traced_types():
     import decimal
     import typing_utils_fx
     return [typing_utils_fx.TU, int, str, List[int], Optional[float], fxh.Base, fxh.D1, Dict[str, fxh.D2], pn.B, nmfoo.Baz, List[fxh.Base],
-            ("TD", ("alpha", "beta")), ("TDN", "alpha"), decimal.Decimal, fxh.Other, typing_utils_fx.TU]
+            ("TD", ("alpha", "beta")), ("TDN", "alpha"), decimal.Decimal, fxh.Other, typing_utils_fx.TU, fxh.Outer, __import__("twinmod").TwinA]
 
 
 @st.composite
@@ -56,8 +61,8 @@ def fspec(draw, name, method=None):
             seen = True
         elif seen:
             d = "0"
-        ps.append(dict(name="p%d" % i, default=d, anno=draw(st.sampled_from(ANNOS)), traced=draw(st.integers(0, 15))))
-    return dict(name=name, ps=ps, ret_anno=draw(st.sampled_from(ANNOS)), ret_traced=draw(st.integers(1, 15)),
+        ps.append(dict(name="p%d" % i, default=d, anno=draw(st.sampled_from(ANNOS)), traced=draw(st.integers(0, 17))))
+    return dict(name=name, ps=ps, ret_anno=draw(st.sampled_from(ANNOS)), ret_traced=draw(st.integers(1, 17)),
                 kwonly=draw(st.booleans()), varargs=draw(st.booleans()), posonly=draw(st.sampled_from([False, False, True])), deco=draw(st.sampled_from([None, None, "deco", "deco2"])),
                 style=draw(st.sampled_from(["normal", "normal", "oneline", "multiline"])), nested=draw(st.booleans()),
                 inner_comment=draw(st.booleans()), docstring=draw(st.booleans()), use=draw(st.integers(0, 20)),
@@ -86,10 +91,25 @@ def source(draw):
             items.append(["stmt", draw(st.integers(0, len(STMTS) - 1))])
         else:
             items.append(["comment", draw(st.integers(0, len(COMMENTS) - 1))])
+    if draw(st.integers(0, 6)) == 0:
+        # the source imports `Outer` from one module (used at runtime) while the traces bring `Outer` of ANOTHER module and a
+        # further class of the first module into the stub
+        fs = [it for kind, it in items if kind == "func"] + [m for kind, it in items if kind == "class" for m in it["methods"] if m["method"] != "property"]
+        if fs:
+            if "from_twinmod_Outer" not in imps:
+                imps = imps[:3] + ["from_twinmod_Outer"]
+            f0 = fs[0]
+            f0["traced"] = True
+            f0["ret_traced"] = 16
+            if f0["ps"]:
+                f0["ps"][0]["traced"] = 17
+            else:
+                f0["ps"] = [dict(name="p0", default=None, anno=None, traced=17)]
     return dict(doc=draw(st.booleans()), future=draw(st.sampled_from([None, None, "from __future__ import annotations", "from __future__ import division"])),
                 lead_comment=draw(st.booleans()), imports=imps, import_after_code=draw(st.sampled_from([None, None, "from_nmfoo", "import_os"])),
                 tc_block=draw(st.sampled_from([None, None, "from fxh import Other", "import nmfoo"])),
-                tc_try=draw(st.sampled_from([False, False, False, True])), main_guard=draw(st.booleans()), items=items)
+                tc_try=draw(st.sampled_from([False, False, False, True])), main_guard=draw(st.booleans()), items=items,
+                rel_import=draw(st.sampled_from(["from .shapes import Square", "from .shapes import Square", "from . import shapes", "from .shapes import Square as Sq", None])))
 
 
 def _sig(f, recv, runtime_exprs):
@@ -146,7 +166,11 @@ def _func_lines(f, ind, recv, runtime_exprs):
         L.append(f"{ind}{a}def {f['name']}({', '.join(parts)}){ret}:")
     b = ind + "    "
     if f["docstring"]:
-        L.append(f'{b}"""doc of {f["name"]}."""')
+        if f["use"] % 3 == 0:
+            # a multi-line docstring with a whitespace-only line and trailing blanks
+            L.append(f'{b}"""doc of {f["name"]}.\n{b}    \n{b}  indented  \n\t\n{b}"""')
+        else:
+            L.append(f'{b}"""doc of {f["name"]}."""')
     if f["inner_comment"]:
         L.append(f"{b}# inner comment of {f['name']}")
     if f["local_import"]:
@@ -162,10 +186,13 @@ def _func_lines(f, ind, recv, runtime_exprs):
     return L
 
 
-def render(spec):
+PKG_SHAPES = "class Square:\n    pass\n\n\nclass Circle:\n    pass\n\n\nclass Tri:\n    pass\n"
+
+
+def render(spec, pkg=False):
     L = []
     if spec["doc"]:
-        L.append('"""Module docstring."""')
+        L.append('"""Module docstring."""' if not spec["lead_comment"] else '"""Module docstring.\n\n    indented\n    \n  \nend\n"""')
     if spec["lead_comment"]:
         L.append("# leading comment")
     if spec["future"]:
@@ -176,6 +203,11 @@ def render(spec):
         L.append(line + ("  # trailing" if k.endswith("fxh") else ""))
         if expr:
             runtime.append(expr)
+    if pkg and spec.get("rel_import"):
+        # the module lives in a package and imports a sibling module relatively; the traced types include that sibling's classes
+        L.append(spec["rel_import"])
+        runtime.append({"from .shapes import Square": "Square.__name__", "from . import shapes": "shapes.Tri.__name__",
+                        "from .shapes import Square as Sq": "Sq.__name__"}[spec["rel_import"]])
     if spec["tc_try"]:
         L += ["try:", "    from typing import TYPE_CHECKING", "except ImportError:", "    TYPE_CHECKING = False"]
     if spec["tc_block"]:
@@ -212,7 +244,9 @@ def render(spec):
     return "\n".join(L) + "\n"
 
 
-def resolve_type(idx, k):
+def resolve_type(idx, k, pkg_types=None):
+    if pkg_types and idx % len(traced_types()) in (5, 6, 9):
+        return pkg_types[idx % len(pkg_types)]
     t = traced_types()[idx % len(traced_types())]
     if isinstance(t, tuple):
         if k == 0:
@@ -243,7 +277,7 @@ def live(mod, path, f):
     return raw.__func__ if f["method"] in ("classmethod", "staticmethod") else (raw.fget if f["method"] == "property" else raw)
 
 
-def traces_for(mod, spec, k):
+def traces_for(mod, spec, k, pkg_types=None):
     out = []
     for path, f in functions(spec):
         if not f["traced"]:
@@ -252,10 +286,10 @@ def traces_for(mod, spec, k):
         at = {}
         if f["method"] != "property":
             for p in f["ps"]:
-                t = resolve_type(p["traced"], k) if p["traced"] else None
+                t = resolve_type(p["traced"], k, pkg_types) if p["traced"] else None
                 if t is not None:
                     at[p["name"]] = t
-        rt = resolve_type(f["ret_traced"], k)
+        rt = resolve_type(f["ret_traced"], k, pkg_types)
         if f["flavour"] == "gen":
             out.append(CallTrace(fn, at, None, rt))
         else:
@@ -379,7 +413,7 @@ def comments(src):
 
 
 import re as _re
-_QUAL = _re.compile(r"\b(?:fxh|fx|nmpkg\.nmutils|nmfoo|typing_utils_fx|typing|decimal|mypy_extensions)\.")
+_QUAL = _re.compile(r"\b(?:fxh|fx|nmpkg\.nmutils|nmfoo|twinmod|typing_utils_fx|typing|decimal|mypy_extensions|mtv_pk\w+\.shapes|shapes)\.")
 
 
 def norm_anno(text):
